@@ -13,6 +13,7 @@
 from __future__ import annotations
 
 import itertools
+import sys
 import os
 
 from vf import refsem as R
@@ -207,6 +208,11 @@ def tasks(tier, seed):
         t.append(dict(part='valid', lo=i, hi=min(i + 8, len(st)), tier=tier))
     # (b) structural faults
     t.append(dict(part='structural'))
+    # (b') a table that became empty after the Database was made (every row removed): every entry form, one fresh process
+    # each (the pre-built engine may take the process down)
+    for entry in BIOGEME_ENTRIES + EXPR_ENTRIES:
+        for how in ('remove-all', 'remove-all-panel'):
+            t.append(dict(part='emptied', entry=entry, how=how, fresh=True))
     # (d') valid data: numeric dtypes of every width / signedness, columns that join the table after the Database was made
     t.append(dict(part='valid_data', what='dtypes'))
     t.append(dict(part='valid_data', what='late'))
@@ -244,6 +250,8 @@ def run_task(task):
         _structural(rec)
     elif part == 'valid_data':
         _valid_data(task, rec)
+    elif part == 'emptied':
+        _emptied(task, rec)
     elif part == 'missing':
         _missing(task, rec)
     elif part == 'sticky':
@@ -260,6 +268,12 @@ def on_abort(task, info):
         return {}
     if task.get('part') in ('plant_engine', 'sticky'):
         return {}
+    if task.get('part') == 'emptied':
+        # empty data must be refused with the library's own error: a process that dies is not that
+        return dict(key=f"C12|wrong-error-type-process-abort|structural:table-emptied-after-creation:entry={task['entry']}",
+                    what=f"history [Database made on a non-empty table; remove() deletes every row ({task['how']}); {task['entry']}]: the "
+                         f"process died (exit {info.get('exitcode')}) instead of a library error: {str(info.get('log_tail', ''))[-200:]}",
+                    case={k: v for k, v in task.items() if k != 'fresh'})
     return None
 
 
@@ -408,6 +422,50 @@ def _valid(task, rec):
         except Exception as e:
             rec.violation(f'C12|valid-specification-rejected-{type(e).__name__}|entry={entry}:panel',
                           f'valid panel formula rejected: {e}', dict(part='valid_panel', entry=entry))
+
+
+def _emptied_child(case):
+    rec = Rec()
+    _emptied(case, rec)
+    sys.exit(3 if rec.violations else 0)
+
+
+def _emptied(task, rec):
+    """Empty data is refused with the library's own error, also when the table became empty after the Database was made."""
+    entry, how = task['entry'], task['how']
+    panel = how.endswith('panel')
+    d = make_database(panel=panel)
+    d.remove(R.Builder(spec()).build(('>', ('var', 'x1'), ('num', -1000.0))))      # true on every row
+    case = {k: v for k, v in task.items() if k != 'fresh'}
+    rec.retire = True
+    if len(d.data) != 0:
+        rec.violation('C12|harness|emptied-table-not-empty', f'{len(d.data)} rows left', case)
+        return
+    if panel:
+        term = ('log', ('traj', ('exp', ('*', ('beta', 'b_z'), ('var', 'x2')))))
+        if entry == 'biogeme_weight_formula':
+            term = ('+', ('num', 1.5), ('beta', 'b_z'))
+    else:
+        term = ('*', ('beta', 'b_z'), ('var', 'x2'))
+    key = ('emptied', entry, how)
+    try:
+        out = enter(entry, term, panel=panel, db=d)
+    except Exception as e:
+        if is_library_error(e):
+            rec.case(key, (entry, how, 'BiogemeError'), outcome='refused')
+            return
+        rec.case(key, (entry, how, type(e).__name__), outcome=('wrong-error', type(e).__name__))
+        rec.violation(f'C12|wrong-error-type-{type(e).__name__}|structural:table-emptied-after-creation:entry={entry}',
+                      f'history [Database made on a non-empty table; remove() deletes every row ({how}); {entry}]: '
+                      f'{type(e).__name__}: {str(e)[:160]} instead of the library error', case, observed=repr(e)[:300])
+        return
+    rec.case(key, (entry, how, 'accepted'), outcome='accepted')
+    if any(v == v and v != 0.0 for v in out):
+        rec.violation(f'C12|faulty-specification-accepted|structural:table-emptied-after-creation:entry={entry}',
+                      f'history [.. remove() deletes every row ({how}); {entry}]: returned {out}', case, observed=out)
+    else:
+        # an empty answer / an empty sum is not a number produced from data: counted, not a violation of the statement's letter
+        rec.count('emptied_table_entry_returned_nothing_or_zero')
 
 
 # ------------------------------------------------------------------ (d') valid data
@@ -858,6 +916,16 @@ def replay(case):
         _plant_engine(case, rec)
     elif part == 'valid_data':
         _valid_data(case, rec)
+    elif part == 'emptied':
+        # replayed in a child process: the engine may abort
+        import multiprocessing as mp
+        ctx = mp.get_context('spawn')
+        p = ctx.Process(target=_emptied_child, args=(dict(case),))
+        p.start()
+        p.join(300)
+        if p.exitcode not in (0, 3):
+            return [on_abort(dict(case), dict(exitcode=p.exitcode, log_tail=''))]
+        return [dict(key='replayed-in-child', what='violation reproduced in the child process', case=case)] if p.exitcode == 3 else []
     elif part in ('valid', 'valid_panel'):
         st = list(sites())
         idx = [i for i, (p, s) in enumerate(st) if p == case.get('p') and s == case.get('s')]
